@@ -137,6 +137,19 @@ class Fold:
             if h is None:
                 raise Uncertified("string model unbound in fold")
             return h(m, *[self.ev(a) for a in x[2]])
+        if m == 'partition_point':
+            t = self.pdb.table(x[2][0][1])
+            pred = x[2][1]
+            lo, hi = 0, len(t)
+            while lo < hi:
+                mid = (lo + hi) // 2
+                env2 = dict(self.env)
+                env2['$elem'] = t[mid]
+                if Fold(self.pdb, env2).ev(pred)[1]:
+                    lo = mid + 1
+                else:
+                    hi = mid
+            return C(lo, 'usize')
         if m in ('bsearch_hit', 'bsearch_pos'):
             t = self.pdb.table(x[2][0][1])
             v = self.ev(x[2][1])[1]
